@@ -15,6 +15,7 @@ import importlib
 import json
 import multiprocessing as mp
 import os
+import shutil
 import sys
 import time
 import traceback
@@ -182,6 +183,33 @@ def main(argv=None):
         return 0
 
     t0 = time.time()
+    scratch = make_scratch()
+    try:
+        return _run(a, mod, modname, pid, seed, t0)
+    finally:
+        shutil.rmtree(scratch, ignore_errors=True)
+
+
+def make_scratch():
+    """scratch directory for device nodes: /dev/shm/pyscsi-verif-<pid> (path must start with /dev/); stale ones of dead runs are removed"""
+    for base in ("/dev/shm", "/dev"):
+        try:
+            for n in os.listdir(base):
+                if n.startswith("pyscsi-verif-"):
+                    p = n.split("-")[-1]
+                    if p.isdigit() and not os.path.exists("/proc/" + p):
+                        shutil.rmtree(os.path.join(base, n), ignore_errors=True)
+            d = os.path.join(base, "pyscsi-verif-%d" % os.getpid())
+            os.makedirs(d, exist_ok=True)
+            os.environ["VF_SCRATCH"] = d
+            return d
+        except OSError:
+            continue
+    os.environ.pop("VF_SCRATCH", None)
+    return "/nonexistent-vf-scratch"
+
+
+def _run(a, mod, modname, pid, seed, t0):
     parts = mod.partitions(a.tier)
     total = Acc(seed)
     errors = []
